@@ -15,7 +15,9 @@ pub mod c08;
 pub mod c09;
 pub mod c10;
 pub mod c11;
+pub mod c12;
 pub mod c13;
+pub mod c14;
 pub mod tiny;
 
 pub trait Monitor {
@@ -51,7 +53,9 @@ pub fn create(id: &str, tier: Tier, seed: u64, scale: u64) -> Option<Box<dyn Mon
         "C09" => Box::new(c09::C09::new(tier, seed, scale)),
         "C10" => Box::new(c10::C10::new(tier, seed, scale)),
         "C11" => Box::new(c11::C11::new(tier, seed, scale)),
+        "C12" => Box::new(c12::C12::new(tier, seed, scale)),
         "C13" => Box::new(c13::C13::new(tier, seed, scale)),
+        "C14" => Box::new(c14::C14::new(tier, seed, scale)),
         _ => return None,
     })
 }
